@@ -296,13 +296,38 @@ class Program:
         try:
             return self.classes[qual]
         except KeyError:
+            # a class that was moved to another module of the package keeps its name: one class of that name is that class
+            name = qual.split(".")[-1]
+            cands = [c for c in self.classes.values() if c.name == name]
+            if len(cands) == 1:
+                return cands[0]
             raise AnchorMissing("class %s" % qual)
 
     def func(self, qual):
+        """the function of that qualified name; when it is not where it used to be: the one function of the package with the same
+        name (a leading underscore more or less) -- in the same class if it is a method, inherited ones included -- if unique"""
         try:
             return self.functions[qual]
         except KeyError:
+            pass
+        parts = qual.split(".")
+        bare = parts[-1].lstrip("_") if not parts[-1].startswith("__") else parts[-1]
+        same = lambda n: (n.lstrip("_") if not n.startswith("__") else n) == bare
+        if len(parts) >= 3:
+            cname = parts[-2]
+            classes = [c for c in self.classes.values() if c.name == cname]
+            if len(classes) == 1:
+                found = self.lookup(classes[0], parts[-1])
+                if found and found[0] == "method":
+                    return found[2]
+                cands = [m for k in self.mro(classes[0]) for m in k.methods.values() if same(m.name)]
+                if len(cands) == 1:
+                    return cands[0]
             raise AnchorMissing("function %s" % qual)
+        cands = [f for f in self.functions.values() if f.cls is None and same(f.name)]
+        if len(cands) == 1:
+            return cands[0]
+        raise AnchorMissing("function %s" % qual)
 
     def has_func(self, qual):
         return qual in self.functions
